@@ -392,6 +392,12 @@ def install(ip: Interp, gdim=None, tdim=None):
     cm, ov = base_models(gdim, tdim)
     ip.class_models.update(cm)
     ip.overrides.update(ov)
+    from .lift import ModelledClass
+
+    try:
+        ip.overrides["Index"] = ModelledClass(ip.prog.get_class("ufl.core.multiindex.Index"), new_index)
+    except Exception:
+        pass
     prev_cmp = ip.compare
 
     def compare(op, a, b, node_):
